@@ -487,6 +487,60 @@ def cmdRangeCheck (args : List String) : String :=
     s!"intext={it} render={rd}"
   | _ => "bad-request"
 
+/-- `duden <op> <args…>`: the documented result of a Duden function (lists `1,2,3`, texts as code
+points, `-` = empty, text lists separated by `/`) -/
+def parseInts (t : String) : List Int :=
+  if t == "-" then [] else (t.splitOn ",").map fun x => if x.startsWith "-" then -((x.drop 1).toString.toNat! : Int) else (x.toNat! : Int)
+def parseNats (t : String) : List Nat := if t == "-" then [] else (t.splitOn ",").map String.toNat!
+def showInts (l : List Int) : String := if l.isEmpty then "-" else ",".intercalate (l.map toString)
+def showNats (l : List Nat) : String := if l.isEmpty then "-" else ",".intercalate (l.map toString)
+def showOpt (o : Option (List Int)) : String := match o with | some l => showInts l | none => "domain"
+def showBool (b : Bool) : String := if b then "1" else "0"
+
+def cmdDuden (args : List String) : String :=
+  open DDP.Duden in
+  match args with
+  | ["anfuegen", l, e] => showInts (anfuegen (parseInts l) (parseInts e).head!)
+  | ["anfuegenListe", l, o] => showInts (anfuegenListe (parseInts l) (parseInts o))
+  | ["voranstellen", l, e] => showInts (voranstellen (parseInts l) (parseInts e).head!)
+  | ["einfuegen", l, i, e] => showOpt (einfuegen (parseInts l) i.toNat! (parseInts e).head!)
+  | ["loesche", l, i] => showOpt (loesche (parseInts l) i.toNat!)
+  | ["loescheBereich", l, a, b] => showOpt (loescheBereich (parseInts l) a.toNat! b.toNat!)
+  | ["fuelle", l, e] => showInts (fuelle (parseInts l) (parseInts e).head!)
+  | ["indexVon", l, e] => toString (indexVon (parseInts l) (parseInts e).head!)
+  | ["enthaelt", l, e] => showBool (enthaelt (parseInts l) (parseInts e).head!)
+  | ["leer", l] => showBool (parseInts l).isEmpty
+  | ["ersteN", l, n] => showOpt (ersteN (parseInts l) n.toNat!)
+  | ["letzteN", l, n] => showOpt (letzteN (parseInts l) n.toNat!)
+  | ["gespiegelt", l] => showInts (gespiegelt (parseInts l))
+  | ["summe", l] => toString (summe (parseInts l))
+  | ["produkt", l] => toString (produkt (parseInts l))
+  | ["elementweiseSumme", a, b] => showOpt (elementweise (· + ·) (parseInts a) (parseInts b))
+  | ["elementweiseProdukt", a, b] => showOpt (elementweise (· * ·) (parseInts a) (parseInts b))
+  | ["aufsteigend", a, b] => showInts (aufsteigend (parseInts a).head! (parseInts b).head!)
+  | ["sortiert", l] => showInts (sortiert (parseInts l))
+  | ["trimAnfang", t, c] => showNats (trimAnfang (parseNats t) c.toNat!)
+  | ["trimEnde", t, c] => showNats (trimEnde (parseNats t) c.toNat!)
+  | ["trim", t, c] => showNats (trim (parseNats t) c.toNat!)
+  | ["anzahlBuchstabe", t, c] => toString (anzahlBuchstabe (parseNats t) c.toNat!)
+  | ["enthaeltBuchstabe", t, c] => showBool ((parseNats t).contains c.toNat!)
+  | ["beginntMit", t, u] => showBool (beginntMit (parseNats t) (parseNats u))
+  | ["endetMit", t, u] => showBool (endetMit (parseNats t) (parseNats u))
+  | ["anzahlText", t, u] => toString (anzahlText (parseNats t) (parseNats u))
+  | ["enthaeltText", t, u] => showBool (enthaeltText (parseNats t) (parseNats u))
+  | ["indexVonText", t, u] => toString (indexVonText (parseNats t) (parseNats u))
+  | ["polsterLinks", t, c, n] => showNats (polsterLinks (parseNats t) c.toNat! n.toNat!)
+  | ["polsterRechts", t, c, n] => showNats (polsterRechts (parseNats t) c.toNat! n.toNat!)
+  | ["spalte", t, c] => "/".intercalate ((spalte (parseNats t) c.toNat!).map showNats) |> fun r => if r == "" then "leer" else r
+  | ["verbinden", ts, c] => showNats (verbinden (if ts == "leer" then [] else (ts.splitOn "/").map parseNats) c.toNat!)
+  | ["gross", t] => showNats ((parseNats t).map grossAscii)
+  | ["klein", t] => showNats ((parseNats t).map kleinAscii)
+  | ["hamming", a, b] => toString (hamming (parseNats a) (parseNats b))
+  | ["vergleiche", a, b] =>
+    let v := vergleiche (parseNats a) (parseNats b)
+    if v == 0 then "0" else if v > 0 then "+" else "-"
+  | _ => "bad-request"
+
 def dispatch (line : String) : String :=
   match (line.splitOn " ").filter (· ≠ "") with
   | "scan" :: args => cmdScan args
@@ -514,6 +568,7 @@ def dispatch (line : String) : String :=
   | "ledger" :: args => cmdLedger args
   | "static" :: args => cmdStatic args
   | "rangecheck" :: args => cmdRangeCheck args
+  | "duden" :: args => cmdDuden args
   | _ => "bad-request"
 
 
